@@ -5,6 +5,8 @@ source reaches the translator in the shape it knows. Every rule is an identity o
 * `x = A if c else B`      ->  `if c: x = A` / `else: x = B`        (targets that are plain names or attributes; `c` is evaluated
   `return A if c else B`   ->  `if c: return A` / `else: return B`    first and exactly one branch after it, as in the expression)
 * `if not c: S1 else: S2`  ->  `if c: S2 else: S1`                    (only when both branches are present)
+* `if a: (if b: S)` with no `else` on either  ->  `if a and b: S`    (`and` short-circuits exactly as the nesting does)
+* a branch that consists of `x = x` for a plain name `x` is dropped   (what `x = A if c else x` desugars to)
 * `if c: S (S ends in return/raise)` followed by `else: T`            is left alone (translators handle both spellings)
 
 * `t = f(...)` immediately followed by `a, b, c = t`, `t` not mentioned anywhere else in the function  ->  `a, b, c = f(...)`
@@ -169,6 +171,20 @@ class _Norm(ast.NodeTransformer):
 
     def visit_If(self, node):
         self.generic_visit(node)
+        # `else: x = x` (from `x = A if c else x`): no else at all
+        def noop(stmts):
+            return len(stmts) == 1 and isinstance(stmts[0], ast.Assign) and len(stmts[0].targets) == 1 \
+                and isinstance(stmts[0].targets[0], ast.Name) and isinstance(stmts[0].value, ast.Name) \
+                and stmts[0].targets[0].id == stmts[0].value.id
+        if node.orelse and noop(node.orelse) and not noop(node.body):
+            node.orelse = []
+        # nested ifs without else
+        if not node.orelse and len(node.body) == 1 and isinstance(node.body[0], ast.If) and not node.body[0].orelse:
+            inner = node.body[0]
+            test = ast.BoolOp(op=ast.And(), values=[node.test, inner.test])
+            ast.copy_location(test, node.test)
+            new = ast.If(test=test, body=inner.body, orelse=[])
+            return self.visit_If(ast.copy_location(new, node)) if False else ast.copy_location(new, node)
         if isinstance(node.test, ast.UnaryOp) and isinstance(node.test.op, ast.Not) and node.body and node.orelse \
                 and not (len(node.orelse) == 1 and isinstance(node.orelse[0], ast.If)):
             new = ast.If(test=node.test.operand, body=node.orelse, orelse=node.body)
